@@ -113,7 +113,7 @@ pub struct Case {
 }
 
 /// materialise the source tree below `root`
-fn materialise(root: &Path, t: &Entry) {
+pub fn materialise(root: &Path, t: &Entry) {
     let mut all = Vec::new();
     t.walk(b"", &mut all);
     let mut links: BTreeMap<(u64, u64), PathBuf> = BTreeMap::new();
